@@ -1131,8 +1131,20 @@ impl<'a, I, A> Strategies<'a, I, A> {
             .zip(self.game.player_infosets.iter())
             .map(|((left, right), info)| {
                 let mut dist = 0.0;
-                for (left_val, right_val) in left.iter().zip(right.iter()) {
-                    dist += (left_val - right_val).abs().powf(p);
+                let lefts = split_by(left, info.iter().map(|inf| inf.num_actions()));
+                let rights = split_by(right, info.iter().map(|inf| inf.num_actions()));
+                for (left_strat, right_strat) in lefts.zip(rights) {
+                    // normalize per infoset so that disjoint supports are exactly distance one
+                    let mut diff = 0.0;
+                    let mut norm = 0.0;
+                    for (left_val, right_val) in left_strat.iter().zip(right_strat.iter()) {
+                        diff += (left_val - right_val).abs().powf(p);
+                        norm += left_val.powf(p) + right_val.powf(p);
+                    }
+                    // norm can only vanish through underflow, in which case diff did too
+                    if norm > 0.0 {
+                        dist += diff / norm;
+                    }
                 }
                 if info.is_empty() {
                     0.0
